@@ -49,7 +49,7 @@ def prepare():
 def budgets(tier):
     if tier == 'quick':
         return dict(shards=16, examples=6)
-    return dict(shards=16, examples=300, deadline_s=3000)
+    return dict(shards=16, examples=900, deadline_s=3000)
 
 
 @st.composite
